@@ -16,7 +16,7 @@ const maxInlineDepth = 10
 
 func isSpecHelper(f *types.Func) bool {
 	switch f.Name() {
-	case "old", "forallInt", "existsInt", "forallReal", "existsReal", "implies", "assert", "assume", "iff", "fresh", "memEq", "lemmaUse", "wfd", "bnd", "sameSlice", "iterStart", "allocd", "ghostRank", "rangeIndex", "inPlace":
+	case "old", "forallInt", "existsInt", "forallReal", "existsReal", "implies", "assert", "assume", "iff", "fresh", "memEq", "lemmaUse", "wfd", "bnd", "sameSlice", "iterStart", "allocd", "ghostRank", "rangeIndex", "inPlace", "same":
 		return f.Pkg() != nil && strings.Contains(f.Pkg().Path(), "tdewolff/canvas")
 	}
 	return false
@@ -1212,6 +1212,10 @@ func (x *Exec) callSpecHelper(s *State, fn *types.Func, call *ast.CallExpr) []*T
 		v := x.eval(tmp, call.Args[1])
 		x.dry--
 		return []*Term{v}
+	case "same":
+		a := x.eval(s, call.Args[0])
+		b := x.eval(s, call.Args[1])
+		return []*Term{x.equalTerms(s, a, b, x.typeOf(call.Args[0]))}
 	case "inPlace":
 		// inPlace(a, b): slice a lives in the storage of slice b (same block, same start, within b's capacity)
 		a := x.eval(s, call.Args[0])
